@@ -5,14 +5,18 @@
 
     Vocabulary (Model.v): [cfg] = storage variant + capacity (ANY capacity, 0 included);
     [run cf sched s] executes a schedule, i.e. ANY list of atomic steps of the gameplay thread
-    (G_reserve, G_drain_one, G_drain_done, G_push, G_mark p) and of the audio thread (A_start,
-    A_remove, A_push, A_add) in ANY interleaving; [resolve s k] is what id [k] resolves to in the
+    (G_reserve, G_drain_one, G_drain_done, G_push, G_mark p, and G_fail built: a creation whose fallible
+    part — [SoundData::into_sound], the effects' [init] of a sub-track — fails BEFORE the reservation, as
+    the code orders things: call-site table in Model.v) and of the audio thread (A_start,
+    A_remove, A_push, A_add) in ANY interleaving; so every theorem below about "ALL schedules" covers
+    histories with failed creations; [resolve s k] is what id [k] resolves to in the
     arena ([Arena::get]); [res_len] is what [num_*] reports; [res_try_reserve] is
     [ResourceController::try_reserve].  ProofsInv.v: the structural invariant [Inv] and the queue
     bound [QInv]; ProofsProps.v: [gone s k] = the slot of [k] has been freed since [k] was handed
     out. *)
 From Coq Require Import Arith List Bool Permutation.
-From KV Require Import Base.Outcome C08.Model C08.ProofsBase C08.ProofsInv C08.ProofsRun C08.ProofsProps.
+From KV Require Import Base.Outcome C08.Model C08.ProofsBase C08.ProofsInv C08.ProofsRun C08.ProofsProps
+  C08.ProofsFail.
 Import ListNotations.
 
 (** For every capacity, both storage variants and EVERY schedule: no step panics — "unused resource
@@ -164,3 +168,80 @@ Theorem capacity_zero_regression :
               st_g s = GIdle /\ res_len s = 0 /\ st_created s = 0 /\
               st_destroyed s = (if pb then [(0, Gameplay)] else []).
 Proof. exact capacity_zero_regression_proof. Qed.
+
+(** A creation that fails before the reservation ([into_sound] returns [Err]; a sub-track's effect
+    unwinds out of [init]) never panics the model and consumes NOTHING, from ANY state (reachable or
+    not) and in any interleaving position: the controller (free list, flags, generations), the arena,
+    both rings, both program counters and the created / removed counters are exactly as before the
+    attempt, hence so are the reported count and capacity, the answer of the next [try_reserve], and
+    what every id resolves to.  The only trace is the payload the caller had already built (sub-tracks),
+    dropped on the caller's thread.  Together with [capacity_exact] (whose schedules include [G_fail]):
+    count = alive + queued + reserved, where "reserved" is the one creation in progress. *)
+Theorem failed_creation_no_effect :
+  forall (cf : cfg) (built : bool) (s : state),
+    exists s', step cf (G_fail built) s = Ok s' /\
+      st_ctl s' = st_ctl s /\
+      st_ar s' = st_ar s /\ st_keys s' = st_keys s /\ st_newq s' = st_newq s /\
+      st_unused s' = st_unused s /\ st_inflight s' = st_inflight s /\ st_marked s' = st_marked s /\
+      st_g s' = st_g s /\ st_a s' = st_a s /\
+      st_created s' = st_created s /\ st_removed s' = st_removed s /\
+      st_callbacks s' = st_callbacks s /\ st_log s' = st_log s /\
+      res_len s' = res_len s /\ res_capacity s' = res_capacity s /\
+      res_try_reserve (st_ctl s') = res_try_reserve (st_ctl s) /\
+      (forall k, resolve s' k = resolve s k) /\
+      ((built = false -> s' = s) /\
+       ((st_next s' = st_next s /\ st_destroyed s' = st_destroyed s) \/
+        (built = true /\ prebuild cf = true /\ st_g s = GIdle /\
+         st_next s' = S (st_next s) /\ st_destroyed s' = (st_next s, Gameplay) :: st_destroyed s))).
+Proof. exact failed_creation_no_effect_proof. Qed.
+
+(** ANY schedule with failed [into_sound]s, from ANY state, has exactly the outcome (final state or
+    panic) of the schedule with those attempts erased. *)
+Theorem failed_creations_erasable :
+  forall (cf : cfg) (sched : list label) (s : state),
+    run cf sched s = run cf (filter (fun l => negb (is_plain_failure l)) sched) s.
+Proof. exact failed_creations_erasable_proof. Qed.
+
+(** The extended system (Model.v, end: [X_fail_late] = the creation is abandoned AFTER [try_reserve],
+    nothing gives the key back) restricted to schedules WITHOUT such a step is the base system: it never
+    panics, nothing leaks, and the accounting is exact. *)
+Theorem no_leak_without_late_failure :
+  forall (cf : cfg) (xsched : list xlabel),
+    no_late xsched ->
+    exists x, xrun cf xsched (xinit cf) = Ok x /\ x_leaked x = [] /\
+              run cf (base_labels xsched) (init cf) = Ok (xs x) /\
+              res_len (xs x) = length (aorder (st_ar (xs x))) + length (st_newq (xs x))
+                               + length (gres (st_g (xs x))) /\
+              res_len (xs x) + st_removed (xs x) = st_created (xs x) /\
+              (res_len (xs x) < cap cf ->
+                 exists k c', res_try_reserve (st_ctl (xs x)) = Ok (Reserved k c')) /\
+              (res_len (xs x) = cap cf -> res_try_reserve (st_ctl (xs x)) = Ok ArenaFull).
+Proof. exact no_leak_without_late_failure_proof. Qed.
+
+(** Counter-model (class: a step [X_fail_late] in the schedule, i.e. reserve-then-fail without release;
+    this is what the seeded change "reserve before [into_sound]" makes of every failed [play], and what
+    the unchanged code does when user code unwinds between [try_reserve] and the push — table in
+    Model.v).  Capacity 2, both storage variants.  (1) One failure: nothing alive, queued or in progress,
+    no resource was ever created, yet the count is 1 — the accounting equation of [capacity_exact] is
+    false.  (2) One failure, then creations and callbacks: after ONE successful creation the storage is
+    full.  (3) Two failures: the EMPTY storage reports 2 and refuses every creation in EVERY
+    continuation — callbacks never repair it. *)
+Theorem reserve_then_fail_refuted :
+  forall sr pb : bool,
+    let cf := mkCfg sr pb 2 in
+    (exists x, xrun cf [XL G_reserve; X_fail_late pb] (xinit cf) = Ok x /\
+               length (x_leaked x) = 1 /\ st_g (xs x) = GIdle /\
+               aorder (st_ar (xs x)) = [] /\ st_newq (xs x) = [] /\ st_log (xs x) = [] /\
+               res_len (xs x) = 1 /\
+               res_len (xs x) <> length (aorder (st_ar (xs x))) + length (st_newq (xs x))
+                                 + length (gres (st_g (xs x)))) /\
+    (exists x, xrun cf (leak_sched_one pb) (xinit cf) = Ok x /\
+               length (aorder (st_ar (xs x))) = 1 /\ st_newq (xs x) = [] /\ st_g (xs x) = GIdle /\
+               length (st_log (xs x)) = 1 /\ st_callbacks (xs x) = 2 /\
+               res_len (xs x) = 2 /\ res_try_reserve (st_ctl (xs x)) = Ok ArenaFull) /\
+    (exists x, xrun cf (leak_sched pb) (xinit cf) = Ok x /\
+               length (x_leaked x) = 2 /\ st_log (xs x) = [] /\ res_len (xs x) = 2 /\
+               forall xsched, exists x', xrun cf xsched x = Ok x' /\
+                 aorder (st_ar (xs x')) = [] /\ st_newq (xs x') = [] /\ st_g (xs x') = GIdle /\
+                 res_len (xs x') = 2 /\ res_try_reserve (st_ctl (xs x')) = Ok ArenaFull).
+Proof. exact reserve_then_fail_refuted_proof. Qed.
